@@ -11,6 +11,7 @@ model in Model/Legacy/Collection.lean:
 Core Lean only.
 -/
 import Model.Legacy.Collection
+import Model.Base.DecText
 
 namespace Spec.Legacy
 open _root_.Legacy _root_.F64
@@ -226,6 +227,7 @@ structure ImplCell where
   min : Bits
   mean : Bits
   max : Bits
+  text : Bytes := []          -- Metrics.Format(row.Scaler), the cell of the text table
 
 structure ImplRow where
   bench : Str
@@ -247,6 +249,7 @@ structure Settings where
   order : Option Order
   geo : Bool
   T : TestFn
+  nconf : Nat := 0
 
 /-- documented metric names -/
 def metricName (unit : Str) : Str :=
@@ -279,6 +282,74 @@ def geoApprox (means : List Bits) : Option Float :=
   else
     let logs := means.map fun m => Float.log (Float.ofBits m)
     some (Float.exp (logs.foldl (· + ·) 0 / means.length.toFloat))
+
+/-! ### rendered numbers denote the statistics -/
+
+def hasBase (s unit : Str) : Bool := s == unit || hasSuffix s (str "-" ++ unit)
+
+def pow10 (e : Int) : Rat := if e ≥ 0 then ((10 ^ e.toNat : Nat) : Rat) else mkRat 1 (10 ^ (-e).toNat)
+
+def numValue (n : DecText.Num) : Rat := (if n.neg then -1 else 1) * ((n.mant : Nat) : Rat) * pow10 n.exp
+
+/-- the factor a unit suffix of the text table stands for, relative to the unit of the metric -/
+def suffixFactor (unit : Str) (suffix : String) : Option Rat :=
+  if hasBase unit (str "ns/op") || hasBase unit (str "ns/GC") then
+    match suffix with
+    | "s" => some 1000000000 | "ms" => some 1000000 | "µs" => some 1000 | "ns" => some 1 | _ => none
+  else
+    let mbs := hasBase unit (str "MB/s")
+    let tail := (if hasBase unit (str "B/op") || hasBase unit (str "bytes/op") || hasBase unit (str "bytes") then "B" else "")
+      ++ (if mbs then "B/s" else "")
+    let pre := (suffix.toList.take (suffix.length - tail.length))
+    if String.ofList (suffix.toList.drop (suffix.length - tail.length)) != tail then none
+    else
+      let f : Option Rat := match String.ofList pre with
+        | "T" => some 1000000000000 | "G" => some 1000000000 | "M" => some 1000000 | "k" => some 1000 | "" => some 1
+        | _ => none
+      f.map fun x => if mbs then x / 1000000 else x
+
+/-- the cell `Metrics.Format(scaler)` of a present metric: `<number><suffix>` (then ` ±d%` or blanks) must
+denote the Mean: the number, times the factor of its suffix, is the Mean rounded to the printed
+precision, and — for the cell the row's scaler was made from (`strict`, the first present one) and
+|Mean| ≥ 1 in the scaler's base unit — within 0.6 % of it (three significant digits). -/
+def judgeCellText (unit : Str) (strict : Bool) (c : ImplCell) : Bool :=
+  if c.unit.isEmpty then c.text.isEmpty
+  else
+    let s := (String.fromUTF8? (ByteArray.mk c.text.toArray)).getD "?"
+    let word := String.ofList (s.toList.takeWhile (· != ' '))
+    if !isFinite c.mean then
+      (if isNaN c.mean then word.startsWith "NaN" else if signBit c.mean then word.startsWith "-Inf" else word.startsWith "+Inf")
+    else
+      let numChars := word.toList.takeWhile fun ch => ch.isDigit || ch == '.' || ch == '-' || ch == '+'
+      let suffix := String.ofList (word.toList.drop numChars.length)
+      match DecText.parse (String.ofList numChars), suffixFactor unit suffix with
+      | some n, some f =>
+        let mean := toRat c.mean
+        let shown := numValue n * f
+        let ulp := pow10 n.exp * f
+        let base := if hasBase unit (str "MB/s") then rabs mean * 1000000 else rabs mean
+        rabs (shown - mean) ≤ ulp * (mkRat 1 2 + mkRat 1 1000000) + rabs mean * mkRat 1 1000000000000
+          && (!strict || base < 1 || rabs (shown - mean) ≤ rabs mean * mkRat 6 1000)
+      | _, _ => false
+
+/-- FormatCSV(norange): every data line carries, per configuration, the Mean as `%.5E` (within 5.1·10^-6
+relative) for a present metric and an empty field for a missing one. Lines with quoted fields are skipped. -/
+def splitOn (sep : UInt8) (b : Bytes) : List Bytes :=
+  let (cur, acc) := b.foldl (fun (p : Bytes × List Bytes) c => if c == sep then ([], p.2 ++ [p.1]) else (p.1 ++ [c], p.2)) ([], [])
+  acc ++ [cur]
+
+def judgeCSVLine (nconf : Nat) (line : Bytes) (cells : List ImplCell) : Bool :=
+  if line.any (· == 0x22) then true else
+  let fields := splitOn 0x2C line
+  ((List.range nconf).zip cells).all fun (i, c) =>
+    let f := fields.getD (1 + i) []
+    if c.unit.isEmpty then f.isEmpty
+    else
+      let s := (String.fromUTF8? (ByteArray.mk f.toArray)).getD "?"
+      if !isFinite c.mean then (s == "NaN" || s == "+Inf" || s == "-Inf")
+      else match DecText.parse s with
+        | some n => rabs (numValue n - toRat c.mean) ≤ rabs (toRat c.mean) * mkRat 51 10000000
+        | none => false
 
 def judgeRow (st : Settings) (unit : Str) (r : ImplRow) : String :=
   match r.cells with
@@ -345,6 +416,8 @@ def judgeTable (st : Settings) (inp : Input) (ims : List ImplMetric) (it : ImplT
               else if ((r.cells.zip inp.configs).any fun (c, cfg) =>
                   let vs := inp.valuesOf cfg g b u
                   if vs.isEmpty then !c.unit.isEmpty else (c.unit != u || c.nvals != vs.length)) then some "cell-presence"
+              else if ((r.cells.zipIdx).any fun (c, i) =>
+                  !judgeCellText u (some i == r.cells.findIdx? (fun c => !c.unit.isEmpty)) c) then some "cell-text"
               else if ond then (let v := judgeRow st u r; if v == "ok" then none else some v)
               else none
             match cellsBad.head? with
@@ -386,5 +459,20 @@ def judgeTables (its : List ImplTable) (ims : List ImplMetric) (inp : Input) (st
       let v := judgeTable st inp ims t
       if v == "ok" then none else some s!"{i}:{v}"
     bad.headD "ok"
+
+/-- walk the lines of FormatCSV(norange) along the tables' rows (header, group header rows, data rows) -/
+def judgeCSV (csv : Bytes) (its : List ImplTable) (nconf : Nat) : String :=
+  let lines := splitOn 0x0A csv
+  -- expected line kinds in order: none = a line we do not judge, some cells = data line
+  let plan : List (Option (List ImplCell)) := ((its.zipIdx).flatMap fun (t, ti) =>
+    (if ti > 0 then [none] else []) ++ [none] ++
+    (t.rows.foldl (fun (acc : List (Option (List ImplCell)) × Str) r =>
+      let acc := if r.group != acc.2 then (acc.1 ++ [none], r.group) else acc
+      (acc.1 ++ [some r.cells], acc.2)) ([], [])).1)
+  if lines.length < plan.length then "csv-shape"
+  else if ((plan.zip lines).any fun (p, l) => match p with
+      | none => false
+      | some cells => !judgeCSVLine nconf l cells) then "csv-mean"
+  else "ok"
 
 end Spec.Legacy
